@@ -326,6 +326,9 @@ func init() {
 		"IfFloat": func(w *Worker, s *State, f *Frame, fn *ssa.Function, a []Value, d int) (Value, bool) {
 			return w.tc.Ite(w.term(a[0]), w.term(a[1]), w.term(a[2])), false
 		},
+		"IfStr": func(w *Worker, s *State, f *Frame, fn *ssa.Function, a []Value, d int) (Value, bool) {
+			return w.tc.Ite(w.term(a[0]), w.term(a[1]), w.term(a[2])), false
+		},
 		"IfInt32": func(w *Worker, s *State, f *Frame, fn *ssa.Function, a []Value, d int) (Value, bool) {
 			return w.tc.Ite(w.term(a[0]), w.term(a[1]), w.term(a[2])), false
 		},
